@@ -199,6 +199,24 @@ func gSources(pipe *gPipe, p *gProg, upto int) []gSrc {
 	return s
 }
 
+// candidate disabling conditions: pipeline inputs and outputs of calls that are not themselves disabled
+func gDisableSources(pipe *gPipe, p *gProg, upto int) []gSrc {
+	var s []gSrc
+	for _, x := range gSources(pipe, p, upto) {
+		ok := true
+		for i := 0; i < upto && i < len(pipe.Calls); i++ {
+			c := &pipe.Calls[i]
+			if strings.HasPrefix(x.Exp, c.id()+".") && (c.Disabled != "" || p.decl(c.Callee).Pipe != nil) {
+				ok = false
+			}
+		}
+		if ok {
+			s = append(s, x)
+		}
+	}
+	return s
+}
+
 func gPick(rng *rand.Rand, srcs []gSrc, t string) (string, bool) {
 	var c []string
 	for _, s := range srcs {
@@ -319,8 +337,10 @@ func gGenProg(rng *rand.Rand, wide bool) *gProg {
 				c.Local = rng.Intn(5) == 0
 				c.Volatile = rng.Intn(5) == 0
 			}
-			if !mapped && rng.Intn(2) == 0 {
-				if r, ok := gPick(rng, srcs, "bool"); ok {
+			if !mapped && d.Stage != nil && rng.Intn(2) == 0 {
+				// (the call-graph builder rejects a condition that is itself the output of a
+				// conditionally disabled call, so conditions come from never-disabled calls)
+				if r, ok := gPick(rng, gDisableSources(pipe, p, len(pipe.Calls)), "bool"); ok {
 					c.Disabled = r
 				}
 			}
